@@ -13,7 +13,9 @@ LEVEL = ("hash-seed clause: every place where the ORDER of a set-typed value is 
          "types for Python, template interpreter for Jinja); each is sorted, a proven singleton, feeds an order-insensitive "
          "update, or is a frozen diagnostics-only case. Environment-dependent sources are enumerated. Permutation clause "
          "(narrow): aggregates are sorted, worklist rounds reset their errors, suffix tests on reference paths are "
-         "separator-anchored, re-registrations of shared classes are monotone.")
+         "separator-anchored, re-registrations of shared classes are monotone, late-filled fields of copied "
+         "classes are read by templates only on the rendered object itself, context-less imported templates keep no macro-written "
+         "module state.")
 
 # unsorted iterations over sets whose order can only reach diagnostics text or idempotent removals (confirmed by reading)
 FROZEN = {
@@ -27,8 +29,58 @@ ENV_SOURCES = ("time.time", "time.monotonic", "datetime.now", "datetime.utcnow",
                "socket.gethostname", "getpass.getuser", "secrets.")
 
 
-def _is_set(av: Any) -> bool:
-    return av is not None and "set" in av.types and not (av.types & {"list", "sortedlist", "tuple"})
+ORDERED = {"list", "sortedlist", "tuple"}
+# consumers whose result does not depend on the order in which their (single) iterable argument is traversed
+ORDER_BLIND = ("sorted", "set", "frozenset", "any", "all", "sum", "len", "min", "max", "Counter")
+
+
+def _types_of(e: ast.AST | None, it: Any) -> frozenset[str]:
+    """container types the expression may evaluate to.  The interpreter records abstract values of names, attributes, calls and
+    subscripts only; the type of every other expression form is derived here from its operands, so that a set is a set however it
+    is written: a display `{a, b}`, a set comprehension, `s | t`, `a if c else s`, `s or set()`, `(x := s)`, `*s` ..."""
+    if e is None:
+        return frozenset()
+    if isinstance(e, (ast.Set, ast.SetComp)):
+        return frozenset({"set"})
+    if isinstance(e, (ast.List, ast.ListComp)):
+        return frozenset({"list"})
+    if isinstance(e, ast.Tuple):
+        return frozenset({"tuple"})
+    if isinstance(e, (ast.Dict, ast.DictComp)):
+        return frozenset({"dict"})
+    if isinstance(e, ast.GeneratorExp):
+        return frozenset({"iter"})
+    if isinstance(e, (ast.Constant, ast.JoinedStr, ast.Compare, ast.Lambda)):
+        return frozenset()
+    if isinstance(e, ast.Call) and call_name(e) in ("set", "frozenset"):
+        return frozenset({"set"})
+    if isinstance(e, ast.Call) and call_name(e) in ("sorted", "list"):
+        return frozenset({"list"})
+    if isinstance(e, ast.BinOp):
+        l, r = _types_of(e.left, it), _types_of(e.right, it)
+        if isinstance(e.op, (ast.BitOr, ast.BitXor)):
+            return l | r
+        if isinstance(e.op, (ast.BitAnd, ast.Sub)):
+            return l
+        return (l | r) - {"set"}  # no other binary operator yields a set
+    if isinstance(e, ast.IfExp):
+        return _types_of(e.body, it) | _types_of(e.orelse, it)
+    if isinstance(e, ast.BoolOp):
+        return frozenset().union(*[_types_of(v, it) for v in e.values])
+    if isinstance(e, (ast.NamedExpr, ast.Starred, ast.Await)):
+        return _types_of(e.value, it)
+    av = it.node_av.get(id(e))
+    return frozenset(av.types) if av is not None else frozenset()
+
+
+def _may_be_set(e: ast.AST | None, it: Any) -> bool:
+    """some evaluation of e yields a set (and e is not declared to be an ordered sequence as well: the annotations of the analysed
+    program use `list | set` nowhere, a value of both types is an imprecision of the join)"""
+    if isinstance(e, (ast.IfExp, ast.BoolOp)):
+        # either operand alone decides what is traversed: `s if c else []` traverses the set s whenever c holds
+        return any(_may_be_set(v, it) for v in ([e.body, e.orelse] if isinstance(e, ast.IfExp) else e.values))
+    t = _types_of(e, it)
+    return "set" in t and not (t & ORDERED)
 
 
 def _insensitive_body(body: list[ast.stmt]) -> bool:
@@ -54,44 +106,28 @@ def run(rep: Report, ctx: Any) -> str:
                       "diagnostics-only (frozen); no environment-dependent source is used")
     rep.rule("R12.2", "aggregates are emitted through a sort; worklist rounds take errors from the last round only; suffix tests "
                       "on reference paths are separator-anchored; updates of already registered classes are monotone")
+    rep.rule("R12.3", "a field that is filled in after construction (declared Optional, written outside the constructors) of a class whose "
+                      "instances are also copied without it is read by templates only on the object handed to render(), never on an "
+                      "object reached through fields / loops / macro parameters (that may be a copy taken before the field was filled)")
+    rep.rule("R12.4", "a template that is imported without context (its module is cached for the whole run) holds no module-level object "
+                      "that one of its macros writes to: what a render emits must not depend on the renders before it")
     rep.assumptions.append("dict iteration order is insertion order (language guarantee); only set/frozenset order is hash-dependent")
+    rep.assumptions.append("R12.3: the objects passed to Template.render() are the registered instances themselves and rendering starts after "
+                           "parsing has finished, so every late write has happened on them")
 
     n_py = 0
     for f in ix.all_functions:
         if f.module.name.startswith(f"{PKG}.schema"):
             continue
+        parent = {id(ch): p_ for p_ in ast.walk(f.node) for ch in ast.iter_child_nodes(p_)}
         for n in ast.walk(f.node):
-            sites: list[tuple[ast.expr, str, ast.AST]] = []
-            if isinstance(n, (ast.For, ast.AsyncFor)):
-                sites.append((n.iter, f"for {role_anon(n.iter, f.node)}", n))
-            elif isinstance(n, (ast.ListComp, ast.GeneratorExp, ast.DictComp)):
-                for g in n.generators:
-                    sites.append((g.iter, f"comprehension over {role_anon(g.iter, f.node)}", n))
-            elif isinstance(n, ast.Call):
-                cn = call_name(n)
-                if cn in ("list", "tuple", "next", "iter", "enumerate", "zip") and n.args:
-                    inner = n.args[0]
-                    if cn == "next" and isinstance(inner, ast.Call) and call_name(inner) == "iter" and inner.args:
-                        inner = inner.args[0]
-                    sites.append((inner, f"{cn}({role_anon(inner, f.node)})", n))
-                elif isinstance(n.func, ast.Attribute) and n.func.attr == "join" and n.args:
-                    sites.append((n.args[0], f"join({role_anon(n.args[0], f.node)})", n))
-                elif isinstance(n.func, ast.Attribute) and n.func.attr == "pop" and not n.args:
-                    sites.append((n.func.value, f"{role_anon(n.func.value, f.node)}.pop()", n))
-            elif isinstance(n, ast.JoinedStr):
-                for v in n.values:
-                    if isinstance(v, ast.FormattedValue):
-                        sites.append((v.value, f"f-string of {role_anon(v.value, f.node)}", n))
-            for expr, desc, node in sites:
-                av = it.node_av.get(id(expr))
-                if not _is_set(av):
-                    continue
-                if isinstance(expr, ast.Call) and call_name(expr) == "sorted":
+            for expr, desc, node in _order_observations(n, f.node, parent):
+                if not _may_be_set(expr, it):
                     continue
                 n_py += 1
                 key = f"{short(f)}::{desc}"
-                if isinstance(node, ast.SetComp) or (isinstance(node, (ast.GeneratorExp, ast.ListComp)) and _feeds_set_or_sorted(f.node, node)):
-                    rep.ok("R12.1", key, "set", "feeds a set / sorted(): order not observed")
+                if _feeds_order_blind(node, parent):
+                    rep.ok("R12.1", key, "set", "feeds a set / sorted() / order-blind aggregate: order not observed")
                     continue
                 if key in FROZEN:
                     rep.ok("R12.1", key, "frozen", FROZEN[key], nontrivial=False)
@@ -107,8 +143,9 @@ def run(rep: Report, ctx: Any) -> str:
                     continue
                 rep.fail("R12.1", key, f"the iteration order of the set `{norm(expr)}` is observed here and is not sorted, a singleton, "
                                        "or an order-insensitive update: output may depend on PYTHONHASHSEED", where(f, node),
-                         lhs=sorted(av.types), rhs="sorted(...) / singleton / keyed update")
+                         lhs=sorted(_types_of(expr, it)), rhs="sorted(...) / singleton / keyed update")
     rep.floor("python_set_order_observations", n_py, 5)
+    rep.control("R12.1 set-valued expressions that are not names", _control_untyped_set_forms())
 
     # templates
     n_t = 0
@@ -216,16 +253,100 @@ def run(rep: Report, ctx: Any) -> str:
                                   "from the current item: the last operation parsed wins, so output depends on the order of paths",
                                   where(f, n), lhs=norm(kw.value), rhs="constant True (monotone)")
     rep.floor("shared_class_flag_updates", n_m, 1)
+    _late_filled_fields(rep, ctx)
+    _template_module_state(rep, ctx)
     rep.not_decided += ["invariance under permutation as such (class-name collisions and {name}_type_{i} numbering are order-sensitive "
                         "by construction; the property restricts itself to documents without diagnostics)"]
     return LEVEL
 
 
-def _feeds_set_or_sorted(fn: ast.AST, comp: ast.AST) -> bool:
+def _order_observations(n: ast.AST, fn: ast.AST, parent: dict[int, ast.AST]) -> list[tuple[ast.expr, str, ast.AST]]:
+    """(traversed expression, description for the construct key, observing node) for every way in which node n makes the order of an
+    iterable visible: statements and expressions that traverse it front to back, take its first element or print it"""
+    sites: list[tuple[ast.expr, str, ast.AST]] = []
+
+    def ra(e: ast.AST) -> str:
+        return role_anon(e, fn)
+
+    if isinstance(n, (ast.For, ast.AsyncFor)):
+        sites.append((n.iter, f"for {ra(n.iter)}", n))
+    elif isinstance(n, (ast.ListComp, ast.GeneratorExp, ast.DictComp)):
+        for g in n.generators:
+            sites.append((g.iter, f"comprehension over {ra(g.iter)}", n))
+    elif isinstance(n, ast.Call):
+        cn = call_name(n)
+        if cn in ("list", "tuple", "next", "iter", "enumerate", "reversed", "str", "repr") and n.args:
+            inner = n.args[0]
+            if cn == "next" and isinstance(inner, ast.Call) and call_name(inner) == "iter" and inner.args:
+                inner = inner.args[0]
+            sites.append((inner, f"{cn}({ra(inner)})", n))
+        elif cn == "zip" and n.args:
+            sites.append((n.args[0], f"zip({ra(n.args[0])})", n))
+            for a in n.args[1:]:
+                sites.append((a, f"zip(.., {ra(a)})", n))
+        elif cn in ("map", "filter") and len(n.args) > 1:
+            for a in n.args[1:]:
+                sites.append((a, f"{cn}(.., {ra(a)})", n))
+        elif isinstance(n.func, ast.Attribute) and n.func.attr == "join" and n.args:
+            sites.append((n.args[0], f"join({ra(n.args[0])})", n))
+        elif isinstance(n.func, ast.Attribute) and n.func.attr == "pop" and not n.args:
+            sites.append((n.func.value, f"{ra(n.func.value)}.pop()", n))
+        elif isinstance(n.func, ast.Attribute) and n.func.attr in ("extend", "fromkeys") and n.args:
+            sites.append((n.args[0], f"{n.func.attr}({ra(n.args[0])})", n))
+    elif isinstance(n, ast.JoinedStr):
+        for v in n.values:
+            if isinstance(v, ast.FormattedValue):
+                sites.append((v.value, f"f-string of {ra(v.value)}", n))
+    elif isinstance(n, ast.Starred) and isinstance(getattr(n, "ctx", None), ast.Load):
+        # `[*s]`, `(*s,)`, `f(*s)`: the elements are laid out in iteration order (a set display `{*s}` is a set again)
+        par = parent.get(id(n))
+        if not isinstance(par, ast.Set):
+            sites.append((n.value, f"*{ra(n.value)}", par if isinstance(par, (ast.List, ast.Tuple)) else n))
+    elif isinstance(n, ast.YieldFrom):
+        sites.append((n.value, f"yield from {ra(n.value)}", n))
+    elif isinstance(n, ast.Assign) and any(isinstance(t, (ast.Tuple, ast.List)) for t in n.targets):
+        sites.append((n.value, f"unpacking of {ra(n.value)}", n))
+    elif isinstance(n, ast.AugAssign) and isinstance(n.op, ast.Add):
+        sites.append((n.value, f"+= {ra(n.value)}", n))
+    return sites
+
+
+def _control_untyped_set_forms() -> bool:
+    """synthetic fragment: every way of writing a set that the interpreter does not record a type for must be seen as a set, and the
+    same forms under an order-blind consumer must not"""
+    class NoTypes:
+        node_av: dict[int, Any] = {}
+
+    src = ("def f(a, b, c):\n"
+           "    x = list({g(t) for t in a})\n"
+           "    y = [*({1, 2} | set(b))]\n"
+           "    for z in ({c} if a else frozenset(b)):\n"
+           "        print(z)\n"
+           "    return ', '.join(set(a) - {c}), sorted({t for t in a}), len(list({1, 2}))\n")
+    fn = ast.parse(src).body[0]
+    parent = {id(ch): p_ for p_ in ast.walk(fn) for ch in ast.iter_child_nodes(p_)}
+    seen, blind = 0, 0
     for n in ast.walk(fn):
-        if isinstance(n, ast.Call) and call_name(n) in ("sorted", "set", "frozenset", "any", "all", "sum", "len", "min", "max") and n.args \
-                and n.args[0] is comp:
-            return True
+        for expr, _, node in _order_observations(n, fn, parent):
+            if _may_be_set(expr, NoTypes):
+                if _feeds_order_blind(node, parent):
+                    blind += 1
+                else:
+                    seen += 1
+    return seen == 4 and blind == 1
+
+
+def _feeds_order_blind(node: ast.AST, parent: dict[int, ast.AST]) -> bool:
+    """the observing expression is itself the argument of a consumer that forgets the order again: sorted(list(s)), set(x for x in s),
+    any(... for x in s), len([.. for x in s]), `{*[.. for x in s]}`"""
+    if not isinstance(node, ast.expr):
+        return False
+    par = parent.get(id(node))
+    if isinstance(par, ast.Starred):
+        par = parent.get(id(par))
+        return isinstance(par, ast.Set)
+    if isinstance(par, ast.Call) and par.args and par.args[0] is node and len(par.args) == 1:
+        return call_name(par).rsplit(".", 1)[-1] in ORDER_BLIND
     return False
 
 
@@ -249,3 +370,234 @@ def _only_in_error(fn: ast.AST, node: ast.AST) -> bool:
             if any(s is node for s in ast.walk(n)):
                 return True
     return False
+
+
+# ---- R12.3 ------------------------------------------------------------------------------------------------------------------
+CONSTRUCTORS = ("__init__", "__new__", "__attrs_post_init__", "__post_init__")
+COPIERS = ("evolve", "replace", "copy", "deepcopy")
+
+
+def _class_types(av: Any, ix: Any) -> set[str]:
+    return {t for t in (av.types if av is not None else ()) if t in ix.classes}
+
+
+def _late_filled_fields(rep: Report, ctx: Any) -> None:
+    from jinja2 import nodes
+
+    from ..jinja_interp import expr_text
+
+    ix = ctx.py
+    it, ji = ctx.flow
+    # (a) late writes: object.__setattr__(X, "f", v) / setattr(X, "f", v) / X.f = v outside the constructors of X's class
+    late: dict[tuple[str, str], str] = {}
+    for f in ix.all_functions:
+        for n in ast.walk(f.node):
+            target = fld = None
+            if isinstance(n, ast.Call) and call_name(n) in ("object.__setattr__", "setattr") and len(n.args) == 3 and \
+                    isinstance(n.args[1], ast.Constant) and isinstance(n.args[1].value, str):
+                target, fld = n.args[0], n.args[1].value
+            elif isinstance(n, (ast.Assign, ast.AnnAssign, ast.AugAssign)):
+                for t in (n.targets if isinstance(n, ast.Assign) else [n.target]):
+                    if isinstance(t, ast.Attribute):
+                        target, fld = t.value, t.attr
+            if target is None:
+                continue
+            if _fresh_object(target, f, ix):
+                continue  # two-phase construction: the factory completes the object it has just created, before anyone else sees it
+            owners = _class_types(it.node_av.get(id(target)), ix)
+            if not owners and f.cls is not None and isinstance(target, ast.Name) and f.params and target.id == f.params[0].arg:
+                owners = {f.cls.qual}
+            for q in owners:
+                c = ix.classes[q]
+                if f.name in CONSTRUCTORS and f.cls is not None and f.cls in ix.mro(c):
+                    continue
+                late.setdefault((q, fld), where(f, n))
+    # (b) ... of a field that starts as a placeholder: its declared type admits None
+    lazy: dict[tuple[str, str], str] = {}
+    for (q, fld), w in late.items():
+        c = ix.classes[q]
+        ann = ix.all_fields(c).get(fld)
+        if ann is not None and "None" in it.tr.from_ann(c.module, ann).types:
+            lazy[(q, fld)] = w
+    # (c) ... while instances of the class are copied without the field being supplied (the copy keeps whatever was there)
+    stale: dict[tuple[str, str], tuple[str, str]] = {}
+    n_copies = 0
+    for f in ix.all_functions:
+        for n in ast.walk(f.node):
+            if not (isinstance(n, ast.Call) and call_name(n).rsplit(".", 1)[-1] in COPIERS and n.args):
+                continue
+            src = _class_types(it.node_av.get(id(n.args[0])), ix)
+            if not src:
+                continue
+            n_copies += 1
+            given = {k.arg for k in n.keywords}
+            for (q, fld), w in lazy.items():
+                if q in src and fld not in given:
+                    stale.setdefault((q, fld), (w, where(f, n)))
+    rep.floor("copy_sites_of_repository_objects", n_copies, 3)
+    rep.indexed["late_filled_fields_of_copied_classes"] = sorted(f"{q.rsplit('.', 1)[-1]}.{fld}" for q, fld in stale)
+    if not stale:
+        rep.ok("R12.3", "no-late-filled-field-of-a-copied-class", "none", "nothing to protect")
+        return
+    names = {fld for _, fld in stale}
+    n_reads = 0
+    seen: set[str] = set()
+    imported = _imported_templates(ctx.jinja.templates, nodes)
+    for tname, ti in sorted(ctx.jinja.templates.items()):
+        render_args = set(ji.render_kwargs.get(tname, {}))
+        subjects = _subject_names(ti, render_args, tname in imported, nodes)
+        for mname, (body, subj) in subjects.items():
+            for g in _own_template_nodes(body, nodes):
+                if not (isinstance(g, nodes.Getattr) and g.attr in names):
+                    continue
+                rd = ji.attr_reads.get((tname, mname, expr_text(g)))
+                if rd is None:
+                    continue  # never evaluated: the macro is not reachable from a rendered template
+                owners = {(q, fld) for (q, fld) in stale if fld == g.attr and q in rd[3]}
+                if not owners:
+                    continue
+                n_reads += 1
+                key = f"{tname}::{mname}::{expr_text(g)}"
+                if key in seen:
+                    continue
+                seen.add(key)
+                base = g.node
+                subject = _is_subject(base, subj, nodes)
+                q, fld = sorted(owners)[0]
+                rep.check(subject, "R12.3", key,
+                          f"`{expr_text(g)}` reads {q.rsplit('.', 1)[-1]}.{fld} on an object that is not the one handed to render(): the field is "
+                          f"filled in after construction ({stale[(q, fld)][0]}) and instances are copied without it ({stale[(q, fld)][1]}), so a "
+                          "copy taken before the original was completed keeps the placeholder and the emitted text depends on the order "
+                          "of definitions in the document", where=f"{PKG}/templates/{tname}:{getattr(g, 'lineno', 0)}",
+                          lhs=expr_text(base), rhs=f"a render argument of {tname}: {sorted(render_args)}")
+    rep.floor("template_reads_of_late_filled_fields", n_reads, 5)
+
+
+def _fresh_object(target: ast.AST, f: Any, ix: Any) -> bool:
+    """target is a local of f that is only ever bound to the result of instantiating a class in f itself"""
+    if not isinstance(target, ast.Name) or target.id in {a.arg for a in f.params}:
+        return False
+    vals = Locals(f.node).values_of(target.id)
+    class_names = {c.name for c in ix.classes.values()}
+    return bool(vals) and all(isinstance(v, ast.Call) and (call_name(v) == "cls" or call_name(v).rsplit(".", 1)[-1] in class_names) for v in vals)
+
+
+def _is_subject(e: Any, subj: set[str], nodes: Any) -> bool:
+    """e denotes an object handed to render() itself: a render argument, a `set` alias of one (canonical name `(arg)`), or a macro
+    parameter that receives one at every call"""
+    return isinstance(e, nodes.Name) and (e.name in subj or (e.name[:1] == "(" and e.name[-1:] == ")" and e.name[1:-1] in subj))
+
+
+def _subject_names(ti: Any, render_args: set[str], is_imported: bool, nodes: Any) -> dict[str, tuple[list[Any], set[str]]]:
+    """scope name -> (body, names that denote a render argument there).  The top level sees the render arguments; a macro sees those its
+    parameters do not hide, plus every parameter to which all calls (the macro is private to a template nobody imports: calls by name
+    in the template itself) pass such a name."""
+    macros = {m.name: m for m in ti.tree.find_all(nodes.Macro)}
+    out: dict[str, tuple[list[Any], set[str]]] = {"<top>": (ti.tree.body, set(render_args))}
+    for m in macros.values():
+        out[m.name] = (m.body, set(render_args) - {a.name for a in m.args})
+    if is_imported:
+        return out
+    calls: dict[str, list[tuple[str, Any]]] = {}
+    for scope, (body, _) in out.items():
+        for n in _own_template_nodes(body, nodes):
+            if isinstance(n, nodes.Call) and isinstance(n.node, nodes.Name) and n.node.name in macros:
+                calls.setdefault(n.node.name, []).append((scope, n))
+    for _ in range(len(macros) + 1):
+        changed = False
+        for m in macros.values():
+            for i, a in enumerate(m.args):
+                if a.name in out[m.name][1] or not calls.get(m.name):
+                    continue
+                ok = True
+                for scope, c in calls[m.name]:
+                    arg = c.args[i] if i < len(c.args) else next((k.value for k in c.kwargs if k.key == a.name), None)
+                    if arg is None or c.dyn_args is not None or c.dyn_kwargs is not None or not _is_subject(arg, out[scope][1], nodes):
+                        ok = False
+                if ok:
+                    out[m.name][1].add(a.name)
+                    changed = True
+        if not changed:
+            break
+    return out
+
+
+def _imported_templates(templates: dict[str, Any], nodes: Any, cached_only: bool = False) -> dict[str, str]:
+    """templates that are the target of an `import` / `from .. import` (a computed name `"dir/" + x` counts for every template under the
+    constant prefix) -> first importing site.  cached_only: only imports without `with context` (Jinja caches the module of those)"""
+    out: dict[str, str] = {}
+    for tname, ti in sorted(templates.items()):
+        for n in ti.tree.find_all((nodes.Import, nodes.FromImport)):
+            if cached_only and n.with_context:
+                continue
+            t = n.template
+            if isinstance(t, nodes.Const) and isinstance(t.value, str):
+                targets = [t.value] if t.value in templates else []
+            else:
+                first = t
+                while isinstance(first, (nodes.Add, nodes.Concat)):
+                    first = first.left if isinstance(first, nodes.Add) else first.nodes[0]
+                prefix = first.value if isinstance(first, nodes.Const) and isinstance(first.value, str) else ""
+                targets = [x for x in templates if x.startswith(prefix)]
+            for x in targets:
+                out.setdefault(x, f"{tname}:{n.lineno}")
+    return out
+
+
+def _own_template_nodes(body: list[Any], nodes: Any) -> Any:
+    """all nodes below body, not descending into (nested) macro definitions"""
+    stack = list(reversed(body))
+    while stack:
+        n = stack.pop()
+        yield n
+        if isinstance(n, nodes.Macro):
+            continue
+        stack.extend(reversed(list(n.iter_child_nodes())))
+
+
+# ---- R12.4 ------------------------------------------------------------------------------------------------------------------
+STATEFUL_CTORS = ("namespace", "dict", "list", "cycler", "joiner")
+MUTATORS = ("append", "extend", "insert", "pop", "remove", "clear", "update", "setdefault", "popitem", "sort", "reverse", "add", "discard",
+            "next", "reset", "__setitem__", "__delitem__", "__setattr__")
+
+
+def _template_module_state(rep: Report, ctx: Any) -> None:
+    from jinja2 import nodes
+
+    templates = ctx.jinja.templates
+    # templates whose module object is cached: targets of `import` / `from .. import` without `with context`
+    cached = _imported_templates(templates, nodes, cached_only=True)
+    rep.floor("templates_imported_without_context", len(cached), 3)
+    for tname in sorted(cached):
+        ti = templates[tname]
+        # objects with identity created by the module body (the body runs once, when the module is first imported)
+        state: dict[str, int] = {}
+        for n in _own_template_nodes(ti.tree.body, nodes):
+            if isinstance(n, nodes.Assign) and isinstance(n.target, nodes.Name):
+                v = n.node
+                if isinstance(v, (nodes.List, nodes.Dict)) or (isinstance(v, nodes.Call) and isinstance(v.node, nodes.Name) and v.node.name in STATEFUL_CTORS):
+                    state[n.target.name] = n.lineno
+        writes: list[tuple[str, str, int]] = []
+        for m in ti.tree.find_all(nodes.Macro):
+            shadow = {a.name for a in m.args}
+            for n in _own_template_nodes(m.body, nodes):
+                hit = None
+                if isinstance(n, nodes.NSRef) and n.name in state and n.name not in shadow:
+                    hit = n.name
+                elif isinstance(n, nodes.Call) and isinstance(n.node, nodes.Getattr) and n.node.attr in MUTATORS and \
+                        isinstance(n.node.node, nodes.Name) and n.node.node.name in state and n.node.node.name not in shadow:
+                    hit = n.node.node.name
+                elif isinstance(n, nodes.Call) and isinstance(n.node, nodes.Name) and n.node.name in state and n.node.name not in shadow:
+                    hit = n.node.name  # joiner() / cycler: calling the object advances it
+                if hit is not None:
+                    writes.append((hit, m.name, getattr(n, "lineno", m.lineno)))
+        if not writes:
+            rep.ok("R12.4", f"{tname}::module-state", sorted(state), "no macro writes to a module-level object")
+            continue
+        for var, mname, line in sorted(set((v, m_, 0) for v, m_, _ in writes)):
+            ln = min(l for v, m_, l in writes if (v, m_) == (var, mname))
+            rep.fail("R12.4", f"{tname}::{mname}::writes {var}",
+                     f"macro `{mname}` writes to `{var}`, an object created at the top level of {tname} (line {state[var]}); the template is "
+                     f"imported without context ({cached[tname]}), so Jinja creates its module once per Environment and the object "
+                     "lives for the whole run: what is emitted depends on which schemas / operations were rendered before",
+                     where=f"{PKG}/templates/{tname}:{ln}", lhs=var, rhs="state declared inside the macro (per call) or in the rendered template")
